@@ -97,10 +97,11 @@ def kw_options_of(fi) -> Dict[str, str]:
     kw = fi.node.args.kwarg.arg if fi.node.args.kwarg is not None else None
     names = {kw, "kwargs"} - {None}
     out: Dict[str, set] = {}
+    defs = single_defs(fi.node)
     for n in ast.walk(fi.node):
         if isinstance(n, ast.Call) and isinstance(n.func, ast.Attribute) and n.func.attr in ("pop", "get") and isinstance(n.func.value, ast.Name) \
                 and n.func.value.id in names and len(n.args) == 2 and isinstance(n.args[0], ast.Constant) and isinstance(n.args[0].value, str):
-            out.setdefault(n.args[0].value, set()).add(UK(n.args[1]))
+            out.setdefault(n.args[0].value, set()).add(UK(expand_defs(n.args[1], defs)))
     return {k: " | ".join(sorted(v)) for k, v in out.items()}
 
 
@@ -150,17 +151,29 @@ _FLIP = {ast.Lt: ast.GtE, ast.GtE: ast.Lt, ast.Gt: ast.LtE, ast.LtE: ast.Gt, ast
          ast.Is: ast.IsNot, ast.IsNot: ast.Is, ast.In: ast.NotIn, ast.NotIn: ast.In}
 
 
+def _strip_test(test, decision):
+    """What is tested: `not` peeled off, `(name := e)` and `bool(e)` are `e` as far as the truth value goes."""
+    while True:
+        if isinstance(test, ast.UnaryOp) and isinstance(test.op, ast.Not):
+            test, decision = test.operand, not decision
+        elif isinstance(test, ast.NamedExpr):
+            test = test.value
+        elif isinstance(test, ast.Call) and isinstance(test.func, ast.Name) and test.func.id == "bool" and len(test.args) == 1 and not test.keywords:
+            test = test.args[0]
+        else:
+            return test, decision
+
+
 def atoms(test: ast.AST, decision: bool) -> List[str]:
     """The condition `test == decision` as a list of canonical atoms that all hold (conjunction)."""
-    while isinstance(test, ast.UnaryOp) and isinstance(test.op, ast.Not):
-        test, decision = test.operand, not decision
+    test, decision = _strip_test(test, decision)
     if isinstance(test, ast.BoolOp):
         if isinstance(test.op, ast.And) and decision:
             return sorted(a for v in test.values for a in atoms(v, True))
         if isinstance(test.op, ast.Or) and not decision:
             return sorted(a for v in test.values for a in atoms(v, False))
         inner = sorted(" & ".join(atoms(v, isinstance(test.op, ast.And))) for v in test.values)
-        return [("not all(" if isinstance(test.op, ast.And) else "any(") + "; ".join(inner) + ")"]
+        return [("<not-all>(" if isinstance(test.op, ast.And) else "<one-of>(") + "; ".join(inner) + ")"]
     if isinstance(test, ast.Compare) and len(test.ops) == 1:
         if not decision and type(test.ops[0]) in _FLIP:
             import copy
@@ -175,14 +188,115 @@ def atoms(test: ast.AST, decision: bool) -> List[str]:
 def alternatives(test: ast.AST, decision: bool) -> List[List[str]]:
     """The ways in which `test == decision` can come about, each a conjunction of atoms: a disjunction taken true (a
     conjunction taken false) is split into its operands; everything else is the single conjunction `atoms(...)`."""
-    while isinstance(test, ast.UnaryOp) and isinstance(test.op, ast.Not):
-        test, decision = test.operand, not decision
+    test, decision = _strip_test(test, decision)
     if isinstance(test, ast.BoolOp) and ((isinstance(test.op, ast.Or) and decision) or (isinstance(test.op, ast.And) and not decision)):
         out = []
         for v in test.values:
             out += alternatives(v, decision)
         return out
     return [atoms(test, decision)]
+
+
+def single_defs(fn, with_params: bool = False):
+    """Locals bound exactly once in the whole function, by a plain `name = expr` (or element-wise `a, b = x, y`): the name
+    is then only an abbreviation, and a condition is the same condition whether it is written with the name or with the
+    expression. Parameters, loop / with / except targets, augmented and walrus bindings never qualify."""
+    a = fn.args
+    params = {x.arg for x in a.posonlyargs + a.args + a.kwonlyargs} | ({a.vararg.arg} if a.vararg else set()) | ({a.kwarg.arg} if a.kwarg else set())
+    count: Dict[str, int] = {}
+    cand: Dict[str, ast.AST] = {}
+
+    def visit(node, in_comp):
+        for ch in ast.iter_child_nodes(node):
+            if isinstance(ch, (ast.FunctionDef, ast.AsyncFunctionDef, ast.ClassDef, ast.Lambda)):
+                continue
+            comp = in_comp or isinstance(ch, (ast.ListComp, ast.SetComp, ast.DictComp, ast.GeneratorExp))
+            if isinstance(ch, ast.Name) and isinstance(ch.ctx, (ast.Store, ast.Del)) and not (comp and not _is_walrus_target(ch, node)):
+                count[ch.id] = count.get(ch.id, 0) + 1
+            if isinstance(ch, ast.AugAssign) and isinstance(ch.target, ast.Name):
+                count[ch.target.id] = count.get(ch.target.id, 0) + 1
+            if isinstance(ch, ast.Assign) and len(ch.targets) == 1 or isinstance(ch, ast.AnnAssign) and ch.value is not None:
+                t = ch.targets[0] if isinstance(ch, ast.Assign) else ch.target
+                if isinstance(t, ast.Name):
+                    cand[t.id] = ch.value
+                elif isinstance(t, ast.Tuple) and isinstance(ch.value, ast.Tuple) and len(t.elts) == len(ch.value.elts):
+                    for te, ve in zip(t.elts, ch.value.elts):
+                        if isinstance(te, ast.Name):
+                            cand[te.id] = ve
+                elif isinstance(t, ast.Tuple) and not any(isinstance(te, ast.Starred) for te in t.elts):
+                    for k, te in enumerate(t.elts):
+                        if isinstance(te, ast.Name):
+                            cand[te.id] = ast.Subscript(value=ch.value, slice=ast.Constant(value=k), ctx=ast.Load())
+            visit(ch, comp)
+    visit(fn, False)
+    # an object that is filled in afterwards (`x[i] = ..`, `x.a = ..`) is not an abbreviation of its creating expression
+    for n in ast.walk(fn):
+        if isinstance(n, (ast.Subscript, ast.Attribute)) and isinstance(n.ctx, (ast.Store, ast.Del)) and isinstance(n.value, ast.Name):
+            cand.pop(n.value.id, None)
+        if isinstance(n, ast.AugAssign) and isinstance(n.target, (ast.Subscript, ast.Attribute)) and isinstance(n.target.value, ast.Name):
+            cand.pop(n.target.value.id, None)
+    pure = lambda v: not any(isinstance(x, (ast.NamedExpr, ast.Yield, ast.Await)) for x in ast.walk(v))      # noqa: E731
+    if with_params:
+        # a parameter re-bound exactly once, by a statement of the function body itself (not nested): from there on the name
+        # abbreviates that expression of the caller's value
+        top = {}
+        for k_, st in enumerate(fn.body):
+            if isinstance(st, ast.Assign) and len(st.targets) == 1 or isinstance(st, ast.AnnAssign) and st.value is not None:
+                t = st.targets[0] if isinstance(st, ast.Assign) else st.target
+                for n in ([t] if isinstance(t, ast.Name) else list(t.elts) if isinstance(t, ast.Tuple) else []):
+                    if isinstance(n, ast.Name) and n.id in params and count.get(n.id, 0) == 1 and n.id in cand and pure(cand[n.id]):
+                        top.setdefault(id(st), {})[n.id] = cand[n.id]
+                        # what the statements up to here read under that name is the caller's value, not the abbreviation
+                        for before in fn.body[:k_ + 1]:
+                            for x in ast.walk(before):
+                                if isinstance(x, ast.Name) and x.id == n.id and isinstance(x.ctx, ast.Load):
+                                    x._raw = True
+        return {n: v for n, v in cand.items() if count.get(n, 0) == 1 and n not in params and pure(v)}, top
+    return {n: v for n, v in cand.items() if count.get(n, 0) == 1 and n not in params and pure(v)}
+
+
+def _is_walrus_target(name, parent) -> bool:
+    return isinstance(parent, ast.NamedExpr) and parent.target is name
+
+
+def expand_defs(e: ast.AST, defs: Dict[str, ast.AST], depth: int = 6) -> ast.AST:
+    import copy
+
+    class T(ast.NodeTransformer):
+        def __init__(self, stack):
+            self.stack = stack
+
+        def visit_Name(self, node):
+            if isinstance(node.ctx, ast.Load) and node.id in defs and node.id not in self.stack and len(self.stack) < depth and not getattr(node, "_raw", False):
+                return T(self.stack + (node.id,)).visit(copy.deepcopy(defs[node.id]))
+            return node
+    return norm_comprehensions(T(()).visit(copy.deepcopy(e)))
+
+
+def norm_comprehensions(e: ast.AST) -> ast.AST:
+    """Comprehension variables are bound names: numbered by nesting depth and position."""
+    def rename(node, mapping):
+        for ch in ast.iter_child_nodes(node):
+            if isinstance(ch, ast.Name) and ch.id in mapping:
+                ch.id = mapping[ch.id]
+            rename(ch, mapping)
+
+    def visit(node, depth):
+        for ch in ast.iter_child_nodes(node):
+            visit(ch, depth + isinstance(ch, (ast.ListComp, ast.SetComp, ast.DictComp, ast.GeneratorExp)))
+        if isinstance(node, (ast.ListComp, ast.SetComp, ast.DictComp, ast.GeneratorExp)):
+            mapping, k = {}, 0
+            for g in node.generators:
+                for n in ast.walk(g.target):
+                    if isinstance(n, ast.Name) and n.id not in mapping:
+                        mapping[n.id] = f"_c{depth}_{k}"
+                        k += 1
+            first_iter = node.generators[0].iter
+            node.generators[0].iter = ast.Constant(value=None)
+            rename(node, mapping)
+            node.generators[0].iter = first_iter
+    visit(ast.Expression(body=e), 0)
+    return e
 
 
 def _terminates(stmts) -> bool:
@@ -198,15 +312,81 @@ def _terminates(stmts) -> bool:
     return False
 
 
+def _expand_env(e: ast.AST, env: Dict[str, ast.AST]) -> ast.AST:
+    import copy
+    bound = set()
+    for n in ast.walk(e):
+        if isinstance(n, ast.comprehension):
+            bound |= {x.id for x in ast.walk(n.target) if isinstance(x, ast.Name)}
+        if isinstance(n, ast.Lambda):
+            bound |= {a.arg for a in n.args.args}
+
+    class T(ast.NodeTransformer):
+        def visit_Name(self, node):
+            if isinstance(node.ctx, ast.Load) and node.id in env and node.id not in bound:
+                return copy.deepcopy(env[node.id])
+            return node
+    return T().visit(copy.deepcopy(e))
+
+
 def refusals_of(fi) -> List[dict]:
     """One entry per Raise statement of the function (nested functions excluded): the exception type and the set of
     conditions that necessarily hold when it is reached (canonical atoms; a branch that ends in raise / return puts the
     negated test on everything after it, `a and b` true / `a or b` false are split, `not` is pushed into comparisons).
     The set is the same for `if a: raise X` + `else: if b: raise Y`, for the early-return form, and for merged / split
-    nested ifs."""
-    out = []
+    nested ifs.
 
-    def walk(stmts, conds, handler):
+    Conditions are written over what the function was given: a local (or re-bound parameter) whose reaching definition is
+    the same on every way to the test is replaced by that definition (a forward pass with a flat lattice: branches are
+    merged by equality, whatever a loop or try body assigns is unknown), so naming or un-naming a sub-expression, or
+    re-using a name, does not change the signature. Objects that are filled in after creation (`x[i] = ..`) stay names."""
+    out = []
+    mutated = set()
+    for n in ast.walk(fi.node):
+        if isinstance(n, (ast.Subscript, ast.Attribute)) and isinstance(n.ctx, (ast.Store, ast.Del)) and isinstance(n.value, ast.Name):
+            mutated.add(n.value.id)
+    impure = lambda v: any(isinstance(x, (ast.NamedExpr, ast.Yield, ast.YieldFrom, ast.Await)) for x in ast.walk(v))      # noqa: E731
+
+    def X(t, env):
+        return norm_comprehensions(_expand_env(t, env))
+
+    def bind(env, target, value):
+        if isinstance(target, ast.Name):
+            v = _expand_env(value, env)
+            if target.id in mutated or impure(value) or len(U(v)) > 300:
+                env.pop(target.id, None)
+            else:
+                env[target.id] = v
+        elif isinstance(target, (ast.Tuple, ast.List)) and not any(isinstance(t, ast.Starred) for t in target.elts):
+            if isinstance(value, (ast.Tuple, ast.List)) and len(value.elts) == len(target.elts):
+                vals = [_expand_env(v, env) for v in value.elts]
+                for t, v in zip(target.elts, vals):
+                    if isinstance(t, ast.Name) and t.id not in mutated and not impure(v) and len(U(v)) <= 300:
+                        env[t.id] = v
+                    else:
+                        kill(env, t)
+            else:
+                v = _expand_env(value, env)
+                for k, t in enumerate(target.elts):
+                    if isinstance(t, ast.Name) and t.id not in mutated and not impure(value) and len(U(v)) <= 300:
+                        env[t.id] = ast.Subscript(value=v, slice=ast.Constant(value=k), ctx=ast.Load())
+                    else:
+                        kill(env, t)
+        else:
+            kill(env, target)
+
+    def kill(env, node):
+        for n in ast.walk(node):
+            if isinstance(n, ast.Name) and isinstance(n.ctx, (ast.Store, ast.Del)):
+                env.pop(n.id, None)
+            if isinstance(n, ast.AugAssign) and isinstance(n.target, ast.Name):
+                env.pop(n.target.id, None)
+
+    def same(a, b):
+        return ast.dump(a) == ast.dump(b)
+
+    def walk(stmts, conds, handler, env):
+        """`env` is updated in place to what holds after the statements"""
         conds = list(conds)
         for st in stmts:
             if isinstance(st, (ast.FunctionDef, ast.AsyncFunctionDef, ast.ClassDef)):
@@ -215,29 +395,62 @@ def refusals_of(fi) -> List[dict]:
                 out.append(dict(kind="handler" if handler else ("guard" if conds else "plain"), exc=exc_name(st),
                                 conds=sorted(set(conds + ([f"<handler of {handler}>"] if handler else [])))))
             elif isinstance(st, ast.If):
-                plain = lambda cs_: [c for c in cs_ if not c.startswith(("not all(", "any("))]   # noqa: E731
+                plain = lambda cs_: [c for c in cs_ if not c.startswith(("<not-all>(", "<one-of>("))]   # noqa: E731
                 # only plain atoms are kept: a compound that cannot be split ("not both", "one of") would appear or not
                 # depending on whether the code tests it directly or falls through to it
-                b, e = plain(conds + atoms(st.test, True)), plain(conds + atoms(st.test, False))
+                test = X(st.test, env)
+                kill(env, st.test)
+                b, e = plain(conds + atoms(test, True)), plain(conds + atoms(test, False))
                 # `if a or b: raise` refuses when a, and refuses when b: one signature per disjunct
-                for alt in alternatives(st.test, True):
-                    walk(st.body, plain(conds + alt), handler)
-                for alt in alternatives(st.test, False):
-                    walk(st.orelse, plain(conds + alt), handler)
-                if _terminates(st.body) and not (st.orelse and _terminates(st.orelse)):
+                envb, enve = dict(env), dict(env)
+                for alt in alternatives(test, True):
+                    envb = dict(env)
+                    walk(st.body, plain(conds + alt), handler, envb)
+                for alt in alternatives(test, False):
+                    enve = dict(env)
+                    walk(st.orelse, plain(conds + alt), handler, enve)
+                tb, te = _terminates(st.body), bool(st.orelse) and _terminates(st.orelse)
+                if tb and not te:
                     conds = plain(e)
-                elif st.orelse and _terminates(st.orelse) and not _terminates(st.body):
+                    merged = enve
+                elif te and not tb:
                     conds = plain(b)
-            elif isinstance(st, (ast.For, ast.While, ast.With)):
-                walk(st.body, conds, handler)
-                walk(getattr(st, "orelse", []), conds, handler)
+                    merged = envb
+                elif tb and te:
+                    merged = {}
+                else:
+                    merged = {k: v for k, v in envb.items() if k in enve and same(v, enve[k])}
+                env.clear()
+                env.update(merged)
+            elif isinstance(st, (ast.For, ast.AsyncFor, ast.While)):
+                kill(env, st)
+                walk(st.body, conds, handler, dict(env))
+                walk(st.orelse, conds, handler, dict(env))
+            elif isinstance(st, (ast.With, ast.AsyncWith)):
+                for item in st.items:
+                    if item.optional_vars is not None:
+                        kill(env, item.optional_vars)
+                walk(st.body, conds, handler, env)
             elif isinstance(st, ast.Try):
-                walk(st.body, conds, handler)
+                kill(env, st)
+                walk(st.body, conds, handler, dict(env))
                 for h in st.handlers:
-                    walk(h.body, conds, U(h.type) if h.type is not None else "<bare>")
-                walk(st.orelse, conds, handler)
-                walk(st.finalbody, conds, handler)
-    walk(fi.node.body, [], None)
+                    walk(h.body, conds, U(h.type) if h.type is not None else "<bare>", dict(env))
+                walk(st.orelse, conds, handler, dict(env))
+                walk(st.finalbody, conds, handler, dict(env))
+            elif isinstance(st, ast.Assign):
+                kill(env, st.value)
+                if len(st.targets) == 1:
+                    bind(env, st.targets[0], st.value)
+                else:
+                    for t in st.targets:
+                        kill(env, t)
+            elif isinstance(st, ast.AnnAssign) and st.value is not None:
+                kill(env, st.value)
+                bind(env, st.target, st.value)
+            else:
+                kill(env, st)
+    walk(fi.node.body, [], None, {})
     seen, uniq = set(), []
     for r in out:
         k = json.dumps(r, sort_keys=True)
